@@ -310,3 +310,48 @@ Proof.
   cbn [flat_map filter snd]. rewrite app_length, IH.
   destruct (client_line cfg c) as [[e|l]|]; reflexivity.
 Qed.
+
+(* closed form of the script suffix the i-th call sees: one outcome removed per accepted
+   earlier call *)
+Lemma In_firstn : forall A (l : list A) n x, In x (firstn n l) -> In x l.
+Proof.
+  intros A l n x H. rewrite <- (firstn_skipn n l). apply in_or_app. left. exact H.
+Qed.
+
+Lemma script_after_skipn : forall cfg cs script,
+  (forall fm c, In (fm, c) cs -> to_value (k_kind c) (k_arg c) <> None) ->
+  script_after cfg cs script = skipn (length (filter (fun fc => accepted cfg (snd fc)) cs)) script.
+Proof.
+  intros cfg cs script H. rewrite <- accepted_lines_count.
+  destruct (send_calls cfg cs script) as [os|] eqn:E.
+  - exact (proj2 (send_calls_emitted _ _ _ _ E)).
+  - exfalso. destruct (send_calls_defined cfg cs script) as [_ Hd]. exact (Hd H E).
+Qed.
+
+Theorem send_calls_nth_closed : forall cfg cs script os,
+  send_calls cfg cs script = Some os ->
+  length os = length cs /\
+  forall i fm c, nth_error cs i = Some (fm, c) ->
+  exists o, nth_error os i = Some o /\
+    send_call cfg fm c (skipn (length (filter (fun fc => accepted cfg (snd fc)) (firstn i cs))) script)
+    = Some (o, skipn (length (filter (fun fc => accepted cfg (snd fc)) (firstn (S i) cs))) script).
+Proof.
+  intros cfg cs script os H. split; [exact (send_calls_length _ _ _ _ H)|].
+  intros i fm c Hi. destruct (send_calls_nth _ _ _ _ H i fm c Hi) as [o [Ho Hs]].
+  exists o. split; [exact Ho|].
+  assert (D : forall fm c, In (fm, c) cs -> to_value (k_kind c) (k_arg c) <> None).
+  { destruct (send_calls_defined cfg cs script) as [Hd _]. apply Hd. congruence. }
+  rewrite <- !script_after_skipn; [exact Hs| |]; intros fm' c' Hin; apply (D fm' c'); eapply In_firstn; exact Hin.
+Qed.
+
+(* what the i-th call hands to the sink depends on the configuration and on that call only *)
+Theorem send_calls_local : forall cfg cs script os,
+  send_calls cfg cs script = Some os ->
+  forall i fm c o, nth_error cs i = Some (fm, c) -> nth_error os i = Some o ->
+  o_emitted o = match client_line cfg c with Some (inr l) => [l] | _ => [] end.
+Proof.
+  intros cfg cs script os H i fm c o Hi Ho.
+  destruct (send_calls_nth _ _ _ _ H i fm c Hi) as [o' [Ho' Hs]].
+  assert (o' = o) by congruence. subst o'.
+  exact (proj1 (emitted_exact _ _ _ _ _ _ Hs)).
+Qed.
